@@ -13,7 +13,8 @@ Survivors that no check reports are the interesting output: each is either an eq
 property, or a gap in the rules. Results stream to /tmp/mut/results.jsonl (resumable); survivor diffs go to
 /tmp/mut/surv/.
 
-usage: tools/mutation_survey.py [-j N] [--limit N] [--files a.go,b.go] [--confirm]
+usage: tools/mutation_survey.py [-j N] [--limit N] [--files a.go,b.go] [--mode token|sibling] [--confirm]
+(--mode sibling: identifiers replaced by a sibling — min/max, error/warning, path/in, one keyword for another)
 """
 import json, os, random, subprocess, sys, tempfile, shutil, glob, threading
 from concurrent.futures import ThreadPoolExecutor
@@ -149,12 +150,13 @@ def main():
     if not os.path.exists(os.path.join(ROOT, "vchk")):
         subprocess.check_call("go build -o %s/vchk ./cmd/vchk && go build -o %s/mutgen ./cmd/mutgen" % (ROOT, ROOT),
                               shell=True, cwd=os.path.join(V, "checker"), env=ENV)
-    muts = [json.loads(l) for l in subprocess.run([ROOT + "/mutgen", "-repo", REPO], capture_output=True, text=True).stdout.splitlines()]
+    mode = a[a.index("--mode") + 1] if "--mode" in a else "token"
+    muts = [json.loads(l) for l in subprocess.run([ROOT + "/mutgen", "-repo", REPO, "-mode", mode], capture_output=True, text=True).stdout.splitlines()]
     for i, m in enumerate(muts):
-        m["id"] = "m%04d" % i
+        m["id"] = ("m%04d" if mode == "token" else "s%04d") % i
     muts = [m for m in muts if os.path.basename(m["file"]) not in SKIP_FILES and (not files or m["file"] in files)]
     random.Random(7).shuffle(muts)
-    rf = os.path.join(ROOT, "results.jsonl")
+    rf = os.path.join(ROOT, "results.jsonl" if mode == "token" else "results_%s.jsonl" % mode)
     done = set()
     if os.path.exists(rf):
         done = {json.loads(l)["id"] for l in open(rf)}
